@@ -540,19 +540,36 @@ class SCFG(Sized):
         # an arc through the inserted block instead.
         for name in predecessors:
             block = self.graph.pop(name)
-            # Operate on all jump targets so that declared backedges are kept,
-            # arcs that are backedges are not rerouted.
-            jt = list(block._jump_targets)
-            if successors:
-                for s in successors:
-                    if s in jt and s not in block.backedges:
-                        if new_name not in jt:
-                            jt[jt.index(s)] = new_name
-                        else:
-                            jt.pop(jt.index(s))
-            else:
-                jt.append(new_name)
-            self.add_block(block.replace_jump_targets(jump_targets=tuple(jt)))
+            self.add_block(self._reroute_block(block, new_name, successors))
+
+    @staticmethod
+    def _reroute_block(
+        block: BasicBlock, new_name: str, successors: List[str]
+    ) -> BasicBlock:
+        """Replace the arcs from block to any of successors with an arc to
+        new_name. If block is a region, the arcs of its exiting block are
+        replaced too, recursively."""
+        # Operate on all jump targets so that declared backedges are kept,
+        # arcs that are backedges are not rerouted.
+        jt = list(block._jump_targets)
+        if successors:
+            for s in successors:
+                if s in jt and s not in block.backedges:
+                    if new_name not in jt:
+                        jt[jt.index(s)] = new_name
+                    else:
+                        jt.pop(jt.index(s))
+        else:
+            jt.append(new_name)
+        block = block.replace_jump_targets(jump_targets=tuple(jt))
+        if isinstance(block, RegionBlock):
+            assert block.subregion is not None
+            assert block.exiting is not None
+            exiting = block.subregion.graph.pop(block.exiting)
+            block.subregion.add_block(
+                SCFG._reroute_block(exiting, new_name, successors)
+            )
+        return block
 
     def insert_SyntheticExit(
         self,
@@ -625,6 +642,9 @@ class SCFG(Sized):
         --------
         numba_scfg.core.datastructures.scfg.SCFG.insert_block
         """
+        # Avoid cyclic imports
+        from numba_scfg.core.transformations import update_exiting
+
         # TODO: needs a diagram and documentaion
         # name of the variable for this branching assignment
         branch_variable = self.name_gen.new_var_name("control")
@@ -637,6 +657,7 @@ class SCFG(Sized):
         for name in predecessors:
             block = self.graph[name]
             jt = list(block.jump_targets)
+            renamed: List[Tuple[str, str]] = []
             # Need to create synthetic assignments for each arc from a
             # predecessors to a successor and insert it between the predecessor
             # and the newly created block
@@ -658,12 +679,17 @@ class SCFG(Sized):
                 branch_variable_value += 1
                 # replace previous successor with synth_assign
                 jt[jt.index(s)] = synth_assign
+                renamed.append((s, synth_assign))
             # finally, replace the jump_targets
-            self.add_block(
-                self.graph.pop(name).replace_jump_targets(
-                    jump_targets=tuple(jt)
-                )
+            block = self.graph.pop(name).replace_jump_targets(
+                jump_targets=tuple(jt)
             )
+            # If the predecessor is a region, update its exiting blocks too,
+            # recursively
+            if isinstance(block, RegionBlock):
+                for s, synth_assign in renamed:
+                    block = update_exiting(block, s, synth_assign)
+            self.add_block(block)
         # initialize new block, which will hold the branching table
         new_block = SyntheticHead(
             name=new_name,
